@@ -240,11 +240,51 @@ class H2(metaclass=MetaHash):
     pass
 
 
+class Ctor:
+    """constructing it is observable: the tracer must never instantiate (or call) what it finds in a value"""
+    made = 0
+
+    def __new__(cls, *a):
+        note("__new__", "", "Ctor")
+        return super().__new__(cls)
+
+    def __init__(self, *a):
+        note("__init__", "", "Ctor")
+        Ctor.made += 1
+
+
+def journaling_factory():
+    note("factory call", "", "journaling_factory")
+    return 0
+
+
+class JIter:
+    """an iterator whose every step is observable (and consumes it)"""
+
+    def __init__(self, label="v"):
+        self._label = label
+        self.left = 3
+
+    def __iter__(self):
+        note("__iter__", "", self._label)
+        return self
+
+    def __next__(self):
+        note("__next__", "", self._label)
+        if self.left <= 0:
+            raise StopIteration
+        self.left -= 1
+        return self.left
+
+
+_dd = __import__("collections").defaultdict
 CATALOGUE = {
+    "FactoryDD": lambda: _dd(Ctor), "FactoryDD1": lambda: _dd(Ctor, {"a": 1}), "FactoryFn": lambda: _dd(journaling_factory),
+    "CtorCls": lambda: Ctor, "JIter": lambda: JIter("v"),
     "Hookable": lambda: Hookable("v"), "GetAttr": lambda: GetAttr("v"), "ClassProp": lambda: ClassProp("v"),
     "WithDesc": lambda: WithDesc("v"), "Proto": lambda: Proto("v"), "CallableObj": lambda: CallableObj("v"),
     "TList": lambda: TList([1, 2]), "DrainList": lambda: DrainList([1, 2, 3]), "TDict": lambda: TDict(a=1), "TSet": lambda: TSet({1}),
     "TTuple": lambda: TTuple((1, 2)), "TDefaultDict": lambda: TDefaultDict(list, a=[1]),
     "M1": lambda: M1(), "M1cls": lambda: M1, "H1": lambda: H1(), "H2": lambda: H2(), "H1cls": lambda: H1,
 }
-HASHABLE = {"Hookable", "GetAttr", "ClassProp", "WithDesc", "Proto", "CallableObj", "TTuple", "M1", "M1cls", "H1", "H2", "H1cls"}
+HASHABLE = {"CtorCls", "JIter", "Hookable", "GetAttr", "ClassProp", "WithDesc", "Proto", "CallableObj", "TTuple", "M1", "M1cls", "H1", "H2", "H1cls"}
